@@ -29,6 +29,7 @@ class Driver:
         self.exe = exe
         self.calls = 0
         self.oracle_calls = 0
+        self.last_oracle = []
         self._start()
 
     def _start(self):
@@ -37,6 +38,7 @@ class Driver:
 
     def call(self, fn, *args):
         self.calls += 1
+        self.last_oracle = []
         line = fn + "".join(" " + sexp.enc(a) for a in args) + "\n"
         try:
             self.p.stdin.write(line)
@@ -50,7 +52,10 @@ class Driver:
                     alg = int(parts[1])
                     hargs = [bytes.fromhex(x[1:]) for x in parts[2:]]
                     self.oracle_calls += 1
-                    self.p.stdin.write(_oracle(alg, hargs).hex() + "\n")
+                    res = _oracle(alg, hargs)
+                    if len(self.last_oracle) < 64:
+                        self.last_oracle.append((alg, hargs, res))
+                    self.p.stdin.write(res.hex() + "\n")
                     self.p.stdin.flush()
                     continue
                 if out.startswith("= "):
